@@ -103,8 +103,8 @@ Definition geom (j : nat) (o : Z * Z) (p : nat) : Prop :=
 
 Inductive reach (root : nat -> Prop) (st : fstate) : nat -> Prop :=
 | reach_root j : root j -> reach root st j
-| reach_step j o p : In o (offs conn) -> o <> (0, 0) -> geom j o p -> doneb st j = true ->
-    nth j (fd8 st) 0 = table_at d8_us (fst o) (snd o) -> filledv st p <= filledv st j ->
+| reach_step j o p : In o (offs conn) -> o <> (0, 0) -> geom j o p -> doneb st j = true -> isnd j = false ->
+    nth j (fd8 st) 0 = table_at d8_us (fst o) (snd o) -> filledv st j = Z.max (nth j elv 0) (filledv st p) ->
     reach root st p -> reach root st j.
 
 Definition pitroot (st : fstate) (j : nat) : Prop := (j < sz)%nat /\ doneb st j = true /\ nth j (fd8 st) 0 = 0.
@@ -118,12 +118,12 @@ Lemma reach_mono (root root' : nat -> Prop) st st' :
   (forall x, root x -> nth x (fdelv st') 0 = nth x (fdelv st) 0) ->
   forall j, reach root st j -> reach root' st' j.
 Proof.
-  intros Hr Hf Hrd j H. induction H as [j Hj|j o p Ho Hne Hg Hd H8 Hle Hp IH].
+  intros Hr Hf Hrd j H. induction H as [j Hj|j o p Ho Hne Hg Hd Hnj H8 Hle Hp IH].
   - apply reach_root. auto.
   - destruct (Hf j Hd) as (Hd' & H8' & Hv').
     apply (reach_step root' st' j o p); auto; [congruence|].
     assert (Hpv : nth p (fdelv st') 0 = nth p (fdelv st) 0).
-    { inversion Hp as [? Hrp|? ? ? _ _ _ Hdp _ _ _]; subst; [apply Hrd; auto|apply (Hf p Hdp)]. }
+    { inversion Hp as [? Hrp|? ? ? _ _ _ Hdp _ _ _ _]; subst; [apply Hrd; auto|apply (Hf p Hdp)]. }
     unfold filledv in *. rewrite Hpv, Hv'. exact Hle.
 Qed.
 
@@ -249,7 +249,7 @@ Proof.
         -- split; auto.
         -- rewrite Hdone', Nat.eqb_refl. reflexivity.
         -- rewrite Hd8'. apply nth_upd_eq. rewrite L4; auto.
-        -- rewrite Hi0lev, Hlevjj. lia.
+        -- rewrite Hi0lev, Hlevjj. reflexivity.
         -- destruct (doneb st i0) eqn:Edi.
            ++ apply (reach_mono (root_in st) (root_in st') st st'); auto. apply (p_reach st HI); auto. apply (p_i0 st HI).
            ++ apply reach_root. apply Hroots. right. auto.
@@ -290,34 +290,46 @@ Proof. unfold offs. destruct (conn =? 4).
   - exists [(-1,0); (0,-1)], [(0,1); (1,0)]. reflexivity.
   - exists [(-1,-1); (-1,0); (-1,1); (0,-1)], [(0,1); (1,-1); (1,0); (1,1)]. reflexivity. Qed.
 
-Lemma pop_linv st z0 b0 i0 rest : linv st -> extract_min (fq st) = Some ((z0, b0, i0), rest) ->
-  linv (fold_left (visit z0 i0) (offs conn)
-          {| fdone := fdone st; fqd := fqd st; fdelv := fdelv st; fd8 := fd8 st; fq := rest |}).
+Definition popped (st : fstate) (rest : list (Z * Z * nat)) : fstate :=
+  {| fdone := fdone st; fqd := fqd st; fdelv := fdelv st; fd8 := fd8 st; fq := rest |}.
+
+Lemma pop_pinv st z0 b0 i0 rest : linv st -> extract_min (fq st) = Some ((z0, b0, i0), rest) ->
+  (i0 < sz)%nat /\ pinv z0 i0 (popped st rest).
 Proof.
   intros HL Hex. destruct (extract_min_spec _ _ _ Hex) as [Hperm Hmin].
   assert (Hm : In (z0, b0, i0) (fq st)) by (apply Hperm; left; reflexivity).
   destruct (l_queue st HL z0 b0 i0 Hm) as (Hi0 & _ & Hnd0 & Hz0).
-  set (st1 := {| fdone := fdone st; fqd := fqd st; fdelv := fdelv st; fd8 := fd8 st; fq := rest |}).
-  assert (HP : pinv z0 i0 st1).
-  { constructor.
-    - destruct (l_binv st HL) as (L1 & L2 & L3 & L4 & Hp & Hn). exact (conj L1 (conj L2 (conj L3 (conj L4 (conj Hp Hn))))).
-    - intros z b j Hin. simpl in Hin.
-      destruct (l_queue st HL z b j) as (A & B & C & D); [apply Hperm; right; exact Hin|].
-      split; auto. split; auto. split; auto. split; auto.
-      pose proof (key_lt_false_z _ _ (Hmin _ Hin)) as Hk. simpl in Hk. exact Hk.
-    - intros j Hj. apply (l_fresh st HL). exact Hj.
-    - symmetry. exact Hz0.
-    - exact Hnd0.
-    - intros j Hj Hd Hn.
-      apply (reach_mono (pitroot st) (root_in i0 st1) st st1); [intros x Hx; left; exact Hx|intros x Hx; unfold doneb in *; simpl; auto|auto|].
-      apply (l_reach st HL); auto. }
-  pose proof (fold_visit_pinv z0 i0 Hi0 (offs conn) (fun o H => H) st1 HP) as HP2.
-  set (st2 := fold_left (visit z0 i0) (offs conn) st1) in *.
-  assert (Hdone_i0 : doneb st2 i0 = true).
-  { unfold st2. destruct offs_centre as [pre [post Hof]]. rewrite Hof, fold_left_app. cbn [fold_left].
-    apply fold_done_mono. apply visit_centre; auto.
-    assert (Hb : binv nrow ncol elv nodata (fold_left (visit z0 i0) pre st1)) by (apply fold_visit_binv; apply (p_binv z0 i0 st1 HP)).
-    destruct Hb as (L1 & _). exact L1. }
+  split; auto. constructor.
+  - destruct (l_binv st HL) as (L1 & L2 & L3 & L4 & Hp & Hn). exact (conj L1 (conj L2 (conj L3 (conj L4 (conj Hp Hn))))).
+  - intros z b j Hin. simpl in Hin.
+    destruct (l_queue st HL z b j) as (A & B & C & D); [apply Hperm; right; exact Hin|].
+    split; auto. split; auto. split; auto. split; auto.
+    pose proof (key_lt_false_z _ _ (Hmin _ Hin)) as Hk. simpl in Hk. exact Hk.
+  - intros j Hj. apply (l_fresh st HL). exact Hj.
+  - symmetry. exact Hz0.
+  - exact Hnd0.
+  - intros j Hj Hd Hn.
+    apply (reach_mono (pitroot st) (root_in i0 (popped st rest)) st (popped st rest));
+      [intros x Hx; left; exact Hx|intros x Hx; unfold doneb in *; simpl; auto|auto|].
+    apply (l_reach st HL); auto.
+Qed.
+
+Lemma fold_done_i0 z0 i0 st : (i0 < sz)%nat -> binv nrow ncol elv nodata st ->
+  doneb (fold_left (visit z0 i0) (offs conn) st) i0 = true.
+Proof.
+  intros Hi0 Hb. destruct offs_centre as [pre [post Hof]]. rewrite Hof, fold_left_app. cbn [fold_left].
+  apply fold_done_mono. apply visit_centre; auto.
+  assert (Hb' : binv nrow ncol elv nodata (fold_left (visit z0 i0) pre st)) by (apply fold_visit_binv; exact Hb).
+  destruct Hb' as (L1 & _). exact L1.
+Qed.
+
+Lemma pop_linv st z0 b0 i0 rest : linv st -> extract_min (fq st) = Some ((z0, b0, i0), rest) ->
+  linv (fold_left (visit z0 i0) (offs conn) (popped st rest)).
+Proof.
+  intros HL Hex. destruct (pop_pinv st z0 b0 i0 rest HL Hex) as [Hi0 HP].
+  pose proof (fold_visit_pinv z0 i0 Hi0 (offs conn) (fun o H => H) _ HP) as HP2.
+  pose proof (fold_done_i0 z0 i0 _ Hi0 (p_binv z0 i0 _ HP)) as Hdone_i0.
+  set (st2 := fold_left (visit z0 i0) (offs conn) (popped st rest)) in *.
   constructor.
   - apply (p_binv z0 i0 st2 HP2).
   - intros z b j Hin. destruct (p_queue z0 i0 st2 HP2 z b j Hin) as (A & B & C & D & _). auto.
